@@ -149,6 +149,11 @@ func (ex *Exec) appendOp(st *State, i *ssa.Call) []*State {
 			na := ex.fresh("grown.arr", ArraySort(BV(64), es))
 			ncap := ex.fresh("grown.cap", BV(64))
 			b.assume(And(Sle(newLen, ncap), Sle(ncap, I64(1<<maxAllocLog))))
+			// A-growth (Go runtime growslice, assumed; used by the allocation-bound obligations only):
+			// the new capacity is at most 2*needed+32 elements, at least 1.25x the old capacity, and at
+			// least twice the old capacity while that is below 256 elements
+			b.assume(And(Sle(ncap, Add(Mul(newLen, I64(2)), I64(32))), Sle(Add(sv.Cap, BVOp("bvashr", sv.Cap, I64(2))), ncap),
+				Implies(Slt(sv.Cap, I64(256)), Sle(Mul(sv.Cap, I64(2)), ncap))))
 			if tLen.IsConst() && tLen.Val.IsInt64() && tLen.Val.Int64() <= 8 {
 				// prefix copied, then the few new elements
 				bv := Fresh("q.k", BV(64))
@@ -167,6 +172,7 @@ func (ex *Exec) appendOp(st *State, i *ssa.Call) []*State {
 			b.regs[i] = &SliceV{Reg: r, Off: I64(0), Len: newLen, Cap: ncap, ElemT: sv.ElemT}
 			b.events = append(b.events, &Event{Kind: "alloc", Site: ex.siteName(i.Pos(), "append-grow"),
 				Info: map[string]*Term{"bytes": Mul(ncap, I64(sizeofType(sv.ElemT))), "needed": newLen, "oldcap": sv.Cap}, NPC: len(b.pc), Pos: i.Pos()})
+			ex.addAlloc(b, Mul(ncap, I64(sizeofType(sv.ElemT))))
 			out = append(out, b)
 		}
 	}
@@ -347,6 +353,19 @@ func (ex *Exec) applyContract(st *State, i *ssa.Call, f *ssa.Function, fc *FuncC
 	for _, a := range fc.Assigns {
 		ex.havocAssign(st, a, vars, i.Pos())
 	}
+	// ghost allocation counter: the callee adds an unknown non-negative amount, constrained by its ensures
+	{
+		g, ok := st.ghost["alloc"]
+		if !ok {
+			g = I64(0)
+		}
+		d := ex.fresh("alloc."+f.Name(), BV(64))
+		st.assume(And(Sle(I64(0), d), Sle(d, I64(1<<56))))
+		if fc.NoAlloc {
+			d = I64(0)
+		}
+		st.ghost["alloc"] = Add(g, d)
+	}
 	// ghost state written by the callee
 	if fc.Ghost {
 		gh, ok := st.ghost["herr"]
@@ -495,6 +514,8 @@ func (ex *Exec) clauseActive(c *Clause) bool {
 		return true
 	case "sim":
 		return ex.simVariant != ""
+	case "alloc":
+		return ex.allocMode
 	case "simwb":
 		return ex.simVariant != "" && ex.mode == "wellbehaved"
 	default:
